@@ -78,6 +78,12 @@ func runC08(t *testing.T, seed uint64, m *Mask) *Report {
 	ageD := time.Duration(1+r.Intn(150)) * time.Millisecond
 	// or both ages are merely configured (long enough never to run out while the scenario is busy)
 	agesSet := !ageRead && r.Chance(0.2)
+	// a second Close of the same session while the first one is still waiting: it must not return before the
+	// handlers have finished either.  And a handler that waits for the close notification before it answers (the
+	// long-poll pattern): a local Close must still get its reply out
+	r3 := simrt.NewRand(simrt.Mix(seed, 801))
+	doubleClose := closeKind == "session" && !withCut && r3.Chance(0.25)
+	waitsForNotify := !withCut && !takeover && !vetoRead && !ageRead && r3.Chance(0.15)
 	closeYield := r.Intn(80)
 	closeSleep := time.Duration(r.Intn(15)) * time.Millisecond
 	cutAfter := time.Duration(r.Intn(25)) * time.Millisecond
@@ -156,6 +162,25 @@ func runC08(t *testing.T, seed uint64, m *Mask) *Report {
 			})
 		}
 		closeStart, closeEnd := -1, -1
+		closeEnd2 := -1
+		if waitsForNotify {
+			for _, op := range ops {
+				if !op.Dropped && !op.ToSrv {
+					op.HWaitClose = true
+					e.Probe("c08-handler-waits-for-close-notify")
+					break
+				}
+			}
+		}
+		if doubleClose {
+			simrt.GoNamed("closer2", func() {
+				simrt.WaitCond(func() bool { return closeStart >= 0 })
+				simrt.YieldN(e.Gen.Intn(12))
+				sa.Close()
+				closeEnd2 = e.Sched.Stats.Steps
+				e.Probe("c08-second-close-while-first-waits")
+			})
+		}
 		simrt.GoNamed("closer", func() {
 			simrt.YieldN(closeYield)
 			if ageRead {
@@ -284,6 +309,9 @@ func runC08(t *testing.T, seed uint64, m *Mask) *Report {
 				}
 				if h := hs[op.Tag]; h != nil && h.enter < closeStart && (h.exit == 0 || h.exit > closeEnd) {
 					e.Fail("C08/close-returned-before-handler", "handler of op %s on the closing side entered at step %d, Close returned at step %d, handler exit at %d", op.Tag, h.enter, closeEnd, h.exit)
+				}
+				if h := hs[op.Tag]; h != nil && closeEnd2 >= 0 && h.enter < closeStart && (h.exit == 0 || h.exit > closeEnd2) {
+					e.Fail("C08/close-returned-before-handler", "handler of op %s on the closing side entered at step %d; a second, overlapping Close returned at step %d, handler exit at %d", op.Tag, h.enter, closeEnd2, h.exit)
 				}
 			}
 		}
